@@ -164,7 +164,7 @@ PROPS = {
         "rule": "plans (1..4 producers x 1..5 pushes, start delays, gaps, prefill, pollable or plain queue) and schedules "
                 "(uniform random / PCT / sticky) drawn from VERIF_SEED; c13_transport: the queues' real consumers - the event loops of Tcp::Transport - with 2..8 connections arriving at about "
                 "the same time on 1..2 workers and an application thread that arms response time-outs (timers queue) and sends replies (writes queue) for them back to back; " + NONTRIVIAL,
-        "probes_expected": ["consumer-woken", "prefilled-before-consumer", "plain-queue", "kind-tmoasync", "kind-async", "kind-async-gone", "kind-busy", "crowd"],
+        "probes_expected": ["consumer-woken", "prefilled-before-consumer", "plain-queue", "kind-tmoasync", "kind-async", "kind-async-gone", "kind-busy", "crowd", "kind-park", "kind-notify"],
         "assumptions": ["single consumer (as in Pistache's own use of the queue)"],
         "quick": {"batches": [("c13_queue", "plain", 150000), ("c13_queue", "tsan", 15000), ("c13_queue", "tsanat", 30000), ("c13_transport", "plain", 20000), ("c13_transport", "tsan", 2000)], "chunk": 2000},
         "thorough": {"batches": [("c13_queue", "plain", 1000000), ("c13_queue", "tsan", 150000), ("c13_queue", "tsanat", 300000), ("c13_transport", "plain", 300000), ("c13_transport", "tsan", 30000), ("c13_transport", "tsanat", 30000)], "chunk": 5000},
